@@ -221,6 +221,24 @@ static void iterationCase(vf::Src &s, vf::Ctx &c)
         for (unsigned k = 1; k <= n + 1; ++k)
             VCHECK(c, itc.eval() == (k > n), "C18/iteration-reset", "iteration(%u) after reset(): evaluation %u wrong", n, k);
     }
+    // large counts (decoded last): n is any unsigned value - callers pass the maximum for "no limit" - and the condition must stay false
+    // for every evaluation one can afford to make
+    if (s.chance(96))
+    {
+        static const unsigned big[] = {4294967295u, 4294967294u, 2147483648u, 2147483647u, 65536u, 65535u, 1000u};
+        unsigned nb = big[s.pick(7)];
+        ob::IterationTerminationCondition itb(nb);
+        ob::PlannerTerminationCondition pb = static_cast<ob::PlannerTerminationCondition>(itb);
+        bool via = s.flag();
+        unsigned ev = (unsigned)s.in(1, 200);
+        c.note(" | iteration(%u) via %s, %u evaluations", nb, via ? "converted condition" : "eval()", ev);
+        for (unsigned k = 1; k <= ev; ++k)
+        {
+            bool got = via ? pb.eval() : itb.eval();
+            VCHECK(c, got == (k > nb), "C18/iteration", "iteration(%u): evaluation %u returned %d", nb, k, (int)got);
+        }
+        c.count("iteration:large-n");
+    }
     c.count("iteration");
     c.nontrivial = evals > n && n > 0;
 }
